@@ -202,7 +202,7 @@ def flat_fields(desc, cid):
     return base + c['fields']
 
 
-def gen_universe(rng, n_classes=5, max_fields=4, tns='urn:t', namespaces=('urn:t', 'urn:u'), model_only=True,
+def gen_universe(rng, n_classes=5, max_fields=4, tns='urn:t', namespaces=('urn:t', 'urn:u', 'urn:v'), model_only=True,
                  shared_names=('id', 'name', 'value')):
     """classes with inheritance, XmlAttribute members, wrapped arrays, max_occurs > 1 members, customised
     primitives, simpleContent classes (one XmlData member + attributes), member names shared between classes"""
@@ -222,10 +222,18 @@ def gen_universe(rng, n_classes=5, max_fields=4, tns='urn:t', namespaces=('urn:t
             continue
         parent = None
         cands = [p for p in range(i) if p not in data_classes]
-        if cands and rng.random() < 0.3:
+        crossing = any(c['parent'] is not None and c['ns'] != classes[c['parent']]['ns'] for c in classes)
+        force = bool(cands) and not crossing and len(namespaces) > 1 and i >= n_classes - 2   # every universe has one crossing chain
+        if cands and (force or rng.random() < 0.3):
             parent = rng.choice(cands)
             has_children.add(parent)
-        ns = classes[parent]['ns'] if parent is not None else rng.choice(namespaces)
+        # a subclass lives in its own namespace as often as in its base's: inherited members keep the namespace of
+        # the class that DECLARES them ({base}a inside a {derived}K element), and chains cross namespaces
+        ns = rng.choice(namespaces)
+        if parent is not None and not force and rng.random() < 0.4:
+            ns = classes[parent]['ns']
+        if force:
+            ns = rng.choice([n for n in namespaces if n != classes[parent]['ns']])
         taken = set(f['name'] for f in flat_fields({'classes': classes}, parent)) if parent is not None else set()
         fields = []
         for j in range(rng.randint(1, max_fields)):
@@ -896,7 +904,15 @@ def ref_leaf_text(v, rng=None):
             return '1' if v[1] else '0'
         return 'true' if v[1] else 'false'
     if k == 'bytes':
-        return base64.b64encode(v[1]).decode('ascii')
+        t = base64.b64encode(v[1]).decode('ascii')
+        if rng is not None and t and rng.random() < 0.35:
+            # xs:base64Binary allows white space inside the literal: MIME-style line wrapping (base64.encodebytes,
+            # Java getMimeEncoder, openssl: 76 or 64 columns; short literals are wrapped narrowly here) and padding
+            w = rng.choice([76, 64, 4, 8]) if len(t) > 8 else 4
+            t = '\n'.join(t[i:i + w] for i in range(0, len(t), w))
+            if rng.random() < 0.5:
+                t = rng.choice(['\n', ' ', '\n  ']) + t + rng.choice(['\n', ' ', ''])
+        return t
     if k == 'date':
         return '%04d-%02d-%02d' % v[1]
     if k == 'time':
